@@ -180,10 +180,14 @@ impl<'a> PrimInt for &'a %(p)s {
 }
 impl ToPrimitive for %(p)s {
     open spec fn tp_val(&self) -> int { *self as int }
+    open spec fn tp_unsigned_ok(&self) -> bool { true }
+    open spec fn tp_req(&self) -> bool { true }
     #[verifier::external_body] fn to_i64(&self) -> (ret: Option<i64>) { unimplemented!() }
     #[verifier::external_body] fn to_u64(&self) -> (ret: Option<u64>) { unimplemented!() }
     #[verifier::external_body] fn to_i128(&self) -> (ret: Option<i128>) { unimplemented!() }
     #[verifier::external_body] fn to_u128(&self) -> (ret: Option<u128>) { unimplemented!() }
+}
+impl ToPrimitiveExt for %(p)s {
     #[verifier::external_body] fn to_usize(&self) -> (ret: Option<usize>) { unimplemented!() }
     #[verifier::external_body] fn to_i32(&self) -> (ret: Option<i32>) { unimplemented!() }
     #[verifier::external_body] fn to_u8(&self) -> (ret: Option<u8>) { unimplemented!() }
